@@ -27,6 +27,7 @@ LEVEL_TEXT = (
     "InvalidFuzzyData and clamps the rest to [-1, 1]. Sampled, not exhaustive."
     ' Templates may carry CRS variables, 64-bit and non-single-precision coordinates and packed (scale_factor/add_offset) coordinate variables, which must arrive with the same element type, stored numbers and decoded values; read cases may first read other values at the same path.'
 )
+LEVEL_TEXT += " Added later: valid cells equal to 'no data' numbers (numpy's fill values, the NetCDF library's default fills, -9999) in written results; an enumerated wide-range read part (doubles above 2^63 as unsigned, 64-bit extremes)."
 LEVEL_NOTE = "Data read as an integer type are integer-valued (rounding of fractional data is not part of the statement); for Positive/Fuzzy reads the missing value itself lies inside the valid range."
 RULE = (
     "Cases: (write) template dims + list of result arrays (dtype, mask); (read) file variable (dtype, fill value, mask, "
